@@ -171,6 +171,69 @@ Proof.
     + unfold to_address_spk. a2s_case LT DEC HLh.
 Qed.
 
+
+(* ---------- P2PKH / P2SH: leading character of the Base58Check text ---------- *)
+
+Lemma horner_val B r : forall a, horner B r a = a * B ^ Z.of_nat (length r) + val B r.
+Proof.
+  induction r as [|x r IH]; intros a.
+  - cbn. lia.
+  - change (horner B (x :: r) a) with (horner B r (B * a + x)).
+    change (val B (x :: r)) with (horner B r (B * 0 + x)).
+    rewrite (IH (B * a + x)), (IH (B * 0 + x)). cbn [length].
+    rewrite Nat2Z.inj_succ, Z.pow_succ_r by lia. ring.
+Qed.
+
+(* the leading digit of a canonical expansion whose value lies in [58^k, 58^(k+1)) *)
+Lemma first_digit dg r k :
+  canonical 58 (dg :: r) -> 58 ^ Z.of_nat k <= val 58 (dg :: r) < 58 ^ Z.of_nat (S k) ->
+  length r = k /\ dg * 58 ^ Z.of_nat k <= val 58 (dg :: r) < (dg + 1) * 58 ^ Z.of_nat k.
+Proof.
+  intros HC HB. pose proof (val_lower 58 dg r ltac:(lia) HC) as L.
+  pose proof (val_upper 58 (dg :: r) ltac:(lia) (proj1 HC)) as U. cbn [length] in U.
+  assert (Z.of_nat (length r) < Z.of_nat (S k)) by (apply (Z.pow_lt_mono_r_iff 58); lia).
+  assert (Z.of_nat k < Z.of_nat (S (length r))) by (apply (Z.pow_lt_mono_r_iff 58); lia).
+  assert (E : length r = k) by lia. split; [exact E|].
+  change (val 58 (dg :: r)) with (horner 58 r (58 * 0 + dg)). rewrite horner_val, E.
+  destruct HC as [HF _]. inversion HF as [|? ? _ HF']; subst.
+  pose proof (val_upper 58 r ltac:(lia) HF'). lia.
+Qed.
+
+Definition P24 : Z := 256 ^ 24.
+
+(* Base58Check text of a 21-byte payload ver :: h (25 bytes with the checksum), ver <> 0 *)
+Lemma b58_first_char ver h t :
+  0 < ver < 256 -> bytes_ok h -> length h = 20%nat ->
+  encode_base58_checksum hash256 (ver :: h) = Ok t ->
+  exists dg r, t = b58_char dg :: map b58_char r /\ 0 <= dg < 58 /\
+    (forall k, 58 ^ Z.of_nat k <= ver * P24 -> (ver + 1) * P24 <= 58 ^ Z.of_nat (S k) ->
+     dg * 58 ^ Z.of_nat k < (ver + 1) * P24 /\ ver * P24 < (dg + 1) * 58 ^ Z.of_nat k).
+Proof.
+  intros Hv HB HL E. unfold encode_base58_checksum in E.
+  set (c := firstn 4 (hash256 (ver :: h))) in *.
+  assert (Lc : length c = 4%nat) by (unfold c; rewrite firstn_length, hash_len; reflexivity).
+  assert (HBs : bytes_ok ((ver :: h) ++ c)).
+  { apply bytes_ok_app. split; [constructor; [unfold byte_ok; lia|exact HB]|apply bytes_ok_firstn, hash_ok]. }
+  assert (HNe : (ver :: h) ++ c <> []) by (cbn [app]; discriminate).
+  destruct (encode_base58_spec _ HNe HBs) as [pre [E1 [C EV]]].
+  rewrite E1 in E. injection E as <-.
+  cbn [app count_lz]. destruct (ver =? 0) eqn:E0; [lia|]. cbn [repeatz app].
+  (* the value *)
+  rewrite from_be_val in EV. cbn [app] in EV.
+  change (val 256 (ver :: h ++ c)) with (horner 256 (h ++ c) (256 * 0 + ver)) in EV.
+  rewrite horner_val in EV. rewrite app_length, HL, Lc in EV. change (Z.of_nat (20 + 4)) with 24 in EV.
+  assert (HBr : bytes_ok (h ++ c)) by (apply bytes_ok_app; split; [exact HB|apply bytes_ok_firstn, hash_ok]).
+  pose proof (val_upper 256 (h ++ c) ltac:(lia) HBr) as UR.
+  rewrite app_length, HL, Lc in UR. change (Z.of_nat (20 + 4)) with 24 in UR. fold P24 in EV, UR.
+  destruct pre as [|dg r].
+  { exfalso. change (val 58 []) with 0 in EV. assert (0 < P24) by (unfold P24; lia). nia. }
+  exists dg, r. destruct C as [CF CN]. inversion CF as [|? ? Hd _]; subst. unfold digit in Hd.
+  split; [reflexivity|]. split; [exact Hd|].
+  intros k K1 K2.
+  destruct (first_digit dg r k (conj CF CN) ltac:(rewrite EV; split; lia)) as [_ FD].
+  rewrite EV in FD. lia.
+Qed.
+
 (* base58 templates: the address payload is version byte :: hash, and decode_base58 gives the
    hash back (the first-character dispatch of address_to_script_pubkey is not covered here) *)
 Theorem base58_address_payload t h net : (t = 0 \/ t = 1) -> bytes_ok h ->
@@ -186,6 +249,88 @@ Proof.
   exists a. split; [|split; [exact E2|]].
   - unfold p2pkh_address, p2sh_address, ver in *. destruct Ht as [-> | ->]; exact E1.
   - unfold decode_base58. rewrite E3. reflexivity.
+Qed.
+
+Lemma b58_zero_first h t :
+  encode_base58_checksum hash256 (0 :: h) = Ok t -> bytes_ok h -> exists rest, t = 49 :: rest.
+Proof.
+  intros E HB. unfold encode_base58_checksum in E.
+  assert (HBs : bytes_ok ((0 :: h) ++ firstn 4 (hash256 (0 :: h)))).
+  { apply bytes_ok_app. split; [constructor; [unfold byte_ok; lia|exact HB]|apply bytes_ok_firstn, hash_ok]. }
+  assert (HNe : (0 :: h) ++ firstn 4 (hash256 (0 :: h)) <> []) by (cbn [app]; discriminate).
+  destruct (encode_base58_spec _ HNe HBs) as [pre [E1 _]].
+  rewrite E1 in E. injection E as <-. cbn [app count_lz]. change (0 =? 0) with true. cbn iota.
+  cbn [repeatz app]. eauto.
+Qed.
+
+Definition b58_script (t : Z) (h : bytes) : list cmd :=
+  if t =? 0 then p2pkh_script h else p2sh_script h.
+
+Ltac b58_case DEC HLh :=
+  cbn -[decode_base58 decode_bech32 length Nat.eqb]; rewrite ?DEC;
+  cbn -[decode_base58 decode_bech32 length Nat.eqb]; rewrite ?HLh; reflexivity.
+
+(* P2PKH (t = 0) and P2SH (t = 1), 20-byte hash: script -> address -> script through both
+   address_to_script_pubkey and TxOut.to_address, on every network (mainnet versions
+   0x00 / 0x05 give '1' / '3', all other networks 0x6f / 0xc4 give 'm' or 'n' / '2') *)
+Theorem base58_address_roundtrip t h net :
+  (t = 0 \/ t = 1) -> bytes_ok h -> length h = 20%nat ->
+  exists a, (if t =? 0 then p2pkh_address hash256 h net else p2sh_address hash256 h net) = Ok a /\
+            address_to_script_pubkey hash256 a = Ok (b58_script t h) /\
+            to_address_spk hash256 a = Ok (b58_script t h).
+Proof.
+  intros Ht HB HL.
+  destruct (base58_address_payload t h net Ht HB) as [a [EA [_ DEC]]].
+  exists a. split; [exact EA|].
+  assert (K33 : 58 ^ Z.of_nat 33 = 58 ^ 33) by reflexivity.
+  assert (K34 : 58 ^ Z.of_nat 34 = 58 ^ 34) by reflexivity.
+  assert (K35 : 58 ^ Z.of_nat 35 = 58 ^ 35) by reflexivity.
+  unfold p2pkh_address, p2sh_address in EA.
+  destruct Ht as [-> | ->]; change (0 =? 0) with true in *; change (1 =? 0) with false in *;
+    cbv iota in EA; unfold b58_script; cbv iota beta;
+    [change (0 =? 0) with true | change (1 =? 0) with false]; cbv iota;
+    destruct (net =? 0).
+  - (* P2PKH mainnet: '1' *)
+    destruct (b58_zero_first h a EA HB) as [rest ->].
+    split; [unfold address_to_script_pubkey | unfold to_address_spk]; b58_case DEC HL.
+  - (* P2PKH other: 'm' / 'n' *)
+    destruct (b58_first_char 111 h a ltac:(lia) HB HL EA) as [dg [r [-> [Hd HK]]]].
+    destruct (HK 33%nat) as [B1 B2]; [rewrite K33; unfold P24; lia|rewrite K34; unfold P24; lia|].
+    rewrite K33 in B1, B2. unfold P24 in B1, B2.
+    assert (dg = 44 \/ dg = 45) as [-> | ->] by lia.
+    + change (b58_char 44) with 109 in *.
+      split; [unfold address_to_script_pubkey | unfold to_address_spk]; b58_case DEC HL.
+    + change (b58_char 45) with 110 in *.
+      split; [unfold address_to_script_pubkey | unfold to_address_spk]; b58_case DEC HL.
+  - (* P2SH mainnet: '3' *)
+    destruct (b58_first_char 5 h a ltac:(lia) HB HL EA) as [dg [r [-> [Hd HK]]]].
+    destruct (HK 33%nat) as [B1 B2]; [rewrite K33; unfold P24; lia|rewrite K34; unfold P24; lia|].
+    rewrite K33 in B1, B2. unfold P24 in B1, B2.
+    assert (dg = 2) as -> by lia. change (b58_char 2) with 51 in *.
+    split; [unfold address_to_script_pubkey | unfold to_address_spk]; b58_case DEC HL.
+  - (* P2SH other: '2' *)
+    destruct (b58_first_char 196 h a ltac:(lia) HB HL EA) as [dg [r [-> [Hd HK]]]].
+    destruct (HK 34%nat) as [B1 B2]; [rewrite K34; unfold P24; lia|rewrite K35; unfold P24; lia|].
+    rewrite K34 in B1, B2. unfold P24 in B1, B2.
+    assert (dg = 1) as -> by lia. change (b58_char 1) with 50 in *.
+    split; [unfold address_to_script_pubkey | unfold to_address_spk]; b58_case DEC HL.
+Qed.
+
+Definition b58_address (t : Z) (h : bytes) (net : Z) : result (list Z) :=
+  if t =? 0 then p2pkh_address hash256 h net else p2sh_address hash256 h net.
+
+(* per network, different P2PKH/P2SH scripts have different addresses *)
+Theorem base58_address_injective t1 h1 t2 h2 net a :
+  (t1 = 0 \/ t1 = 1) -> bytes_ok h1 -> length h1 = 20%nat ->
+  (t2 = 0 \/ t2 = 1) -> bytes_ok h2 -> length h2 = 20%nat ->
+  b58_address t1 h1 net = Ok a -> b58_address t2 h2 net = Ok a ->
+  b58_script t1 h1 = b58_script t2 h2.
+Proof.
+  intros T1 B1 L1 T2 B2 L2 E1 E2.
+  destruct (base58_address_roundtrip t1 h1 net T1 B1 L1) as [a1 [A1 [R1 _]]].
+  destruct (base58_address_roundtrip t2 h2 net T2 B2 L2) as [a2 [A2 [R2 _]]].
+  unfold b58_address in *. rewrite E1 in A1. rewrite E2 in A2.
+  injection A1 as <-. injection A2 as <-. rewrite R1 in R2. now injection R2.
 Qed.
 
 End WithHash.
